@@ -1,5 +1,5 @@
 """C01 - restructuring preserves every execution path (both walkers, every stage prefix)."""
-from vf.s1common import s1_jobs, sig_of, exc_signature, graph_features
+from vf.s1common import s1_jobs, sig_of, exc_signature, graph_features, front_end_jobs
 from vf.oracles.hier import build_scfg, orig_map, STAGES, flat_walk_check, region_walk_check, flatten
 
 PROPERTY = "C01"
@@ -63,9 +63,10 @@ def harness(E, ctx, aux, desc):
     if any(f["kind"] == "skip" for f in fs):
         ctx.feature("stage-raised")
     g = build_scfg(desc)
+    orig = orig_map(desc)
     try:
         g.restructure()
-        if len(flatten(g)) > len(desc["names"]):
+        if len(flatten(g)) > len(orig):
             ctx.nontrivial += 1
     except Exception:
         pass
@@ -75,7 +76,7 @@ def harness(E, ctx, aux, desc):
 
 
 def jobs(tier):
-    return s1_jobs(tier, harness)
+    return s1_jobs(tier, harness) + front_end_jobs(tier, harness)
 
 
 def replay(desc):
